@@ -84,6 +84,60 @@ def judge(byc, res):
     pass
 
 
+def length_ladder(b, v, cs, tier):
+    """Pass-1 output lines of every length around the usual buffer sizes (redaction changes the length of a line, so an output line can
+    have a length no input line had): lines are padded, outside the zones, so that the *output* lengths cover 4096-w..4096+w, 8192.., 16384..,
+    32768.., and a stretch just below 65536; the output fed back must be reproduced byte for byte."""
+    import streamlib as sl
+    wd = tempfile.mkdtemp(prefix="c19-len-", dir=b.root)
+    pool = sl.Pool(v.seed)
+    w = 24 if tier == "quick" else 120
+    n = 0
+    try:
+        for cfg in cs:
+            if cfg.encrypt:
+                continue
+            base = pool.obj_line("cmd", 3, 4400000)
+            probe = base[:-1] + ',"pad":"' + "p" * 50 + '"}'
+            rc, out, err = l3.run_batch(b, [probe], cfg, wd, None)
+            if rc != 0 or not out.strip():
+                continue
+            delta = len(out.strip("\n").encode("utf-8")) - len(probe.encode("utf-8"))
+            targets = []
+            for centre in (4096, 8192, 16384, 32768):
+                targets += list(range(centre - w, centre + w + 1))
+            targets += list(range(65536 - 2 * w - 40, 65536 - 40))
+            texts = []
+            for k, tl in enumerate(targets):
+                b0 = pool.obj_line("cmd", 3, 4400001 + k)
+                room = tl - delta - len(b0.encode("utf-8")) - 9
+                if room < 1:
+                    continue
+                texts.append(b0[:-1] + ',"pad":"' + "p" * room + '"}')
+            rc1, out1, err1 = l3.run_batch(b, texts, cfg, wd, None)
+            if rc1 != 0:
+                continue            # a line the reader refuses is C07's business
+            l1 = [x for x in out1.split("\n") if x != ""]
+            hit = sorted(set(len(x.encode("utf-8")) for x in l1) & {4095, 4096, 4097, 8192, 16384, 32768})
+            rc2, out2, err2 = l3.run_batch(b, l1, cfg, wd, None)
+            l2 = [x for x in out2.split("\n") if x != ""]
+            n += len(l1)
+            v.count(len(l1))
+            v.nontrivial(("ladder", cfg.name, tuple(hit)))
+            if rc2 != 0 or l1 != l2:
+                j = 0
+                while j < len(l1) and j < len(l2) and l1[j] == l2[j]:
+                    j += 1
+                ln = len(l1[j].encode("utf-8")) if j < len(l1) else -1
+                v.violation("second pass does not reproduce a pass-1 line whose length is %s flags=%s" % (
+                    "an exact multiple of 4096 bytes" if ln % 4096 == 0 else "next to a multiple of 4096 bytes" if min(ln % 4096, 4096 - ln % 4096) <= 2 else "near a buffer size", " ".join(cfg.flags())),
+                            {"cfg": cfg.desc(), "pass1_lines": len(l1), "pass2_lines": len(l2), "pass2_exit": rc2, "first_unreproduced_line_length": ln,
+                             "pass1_line_head": l1[j][:300] if j < len(l1) else "", "pass2_line_head": (l2[j][:300] if j < len(l2) else "")})
+    finally:
+        shutil.rmtree(wd, ignore_errors=True)
+    return n
+
+
 def cfgs(tier):
     cs = [l3.Cfg("base"), l3.Cfg("nbi", num=True, bool=True, ips=True), l3.Cfg("repl", replacement='X"\\é', num=True),
           l3.Cfg("iprepl", replacement="10.1.2.3:27017", ips=True, num=True)]
@@ -116,10 +170,12 @@ def run(tier):
         states += t.distinct
         trans += t.generated
     rp.finish()
+    nlad = length_ladder(b, v, cs, tier)
     v.cov.update({"states": states, "transitions": trans, "traces_validated_against_impl": v.cov["evaluations"], "exhaustive": True,
-                  "abstract_cases": rp.records, "flag_sets": [c.desc() for c in cs], "crashed_lines": rp.crashes,
+                  "abstract_cases": rp.records, "flag_sets": [c.desc() for c in cs], "crashed_lines": rp.crashes, "length_ladder_lines": nlad,
                   "rule": "cases = table-walk + free + envelope-walk + grammar-seed states; each concretised (escapes, non-BMP, exotic number literals, exotic "
-                          "keys) and run through `redact` twice with the same flags; non-trivial = pass 1 changed the line; distinct by (predicted outcome pattern, flag set)",
+                          "keys) and run through `redact` twice with the same flags; plus a ladder of lines whose pass-1 output has every length around 4096, 8192, 16384, "
+                          "32768 and just below 65536 bytes; non-trivial = pass 1 changed the line; distinct by (predicted outcome pattern, flag set)",
                   "trusted_base": ["TLC (IdemInv checked on every state)", "lib/l3.py"]})
     v.assumptions.append("no --redactNamespaces / --redactFieldNames; replacement text not e-mail shaped (as the statement says)")
     return v.finish()
